@@ -122,7 +122,7 @@ def _idx(s):
 
 def make_network(n, edges, slack, loads=True):
     import andes
-    ss = andes.System(default_config=True, no_output=True)
+    ss = andes.System(default_config=True, no_output=True, autogen_stale=False)
     for k in range(n):
         ss.add('Bus', {'idx': k, 'name': 'B%d' % k, 'Vn': 110.0})
     nl = nj = 0
